@@ -866,7 +866,7 @@ PLAN = {
     "quick": [
         ("server", "fresh", "full", 2), ("client", "fresh", "full", 1),
         ("server", "full", "full", 1), ("client", "full", "full", 2),
-        ("server", "fresh", "medium", 3), ("client", "fresh", "medium", 3),
+        ("server", "fresh", "medium", 3), ("client", "fresh", "medium", 2),
         ("server", "full", "medium", 2), ("client", "full", "medium", 3),
         ("server", "fresh", "small", 4), ("client", "fresh", "small", 3),
         ("server", "full", "small", 3), ("client", "full", "small", 3),
